@@ -36,6 +36,7 @@ LEVEL = {
 }
 LEVEL["decided"] += ' sync(): the wrapper calls the very callable it was given, also when that is a functools.partial (closure environment evaluated).'
 LEVEL["decided"] += ' sync(): a callable that is not itself a coroutine function is never handed back unwrapped, whatever its attributes (a class whose instances have an async __call__).'
+LEVEL["decided"] += " (R19.5) apply takes the function positional-only: every split of the target's arguments into positional and keyword awaitables is accepted."
 
 
 def run(ctx) -> None:
